@@ -201,6 +201,19 @@ def scenario(ctx, rng, tmpdir):
     for key, e in zip(order, [x for x in rep.entries if x.startswith('B:')]):
         f = e.split(':')
         ents[key] = {'rba': int([x for x in f if x.startswith('rba')][0][3:]), 'cnt': int([x for x in f if x.startswith('cnt')][0][3:])}
+    # Recorded finding C12.efi/partitions-follow-name-order: the library hands the EFI section entries to the hybrid structures
+    # in the order of their boot FILE NAMES (the order in which it places the files), not in catalog order; the unedited
+    # suite pins that order (test_new_isohybrid_mac_uefi).  When the names sort the other way round and partition 2
+    # describes exactly the second EFI entry, that is this finding; the remaining clauses are then checked against the
+    # name order so that any OTHER defect still shows under its own signature.
+    name_order = False
+    if variant != 'plain' and 'efi' in ents and 'mac' in ents and not share_boot and namesets[0] > namesets[1]:
+        lba2, cnt2 = struct.unpack_from('<LL', img, 446 + 16 + 8)
+        if (lba2, cnt2) == (4 * ents['mac']['rba'], ents['mac']['cnt']) and ents['mac'] != ents['efi']:
+            viol('C12.efi/partitions-follow-name-order', 'partition 2 describes the SECOND EFI section entry (%s sorts before %s): sections are '
+                 'handed to the hybrid structures in file-name order, not catalog order' % (namesets[1], namesets[0]))
+            ents['efi'], ents['mac'] = ents['mac'], ents['efi']
+            name_order = True
     cyl = s_geo * h_geo * 512
     # --- hybrid is otherwise the unchanged ISO
     if img[32768:len(base)] != base[32768:]:
@@ -336,14 +349,14 @@ def scenario(ctx, rng, tmpdir):
             out3 = io.BytesIO()
             iso3.write_fp(out3)
         iso3.close()
-        second_generation(ctx, out3.getvalue(), hy, s_geo, h_geo, variant, viol)
+        second_generation(ctx, out3.getvalue(), hy, s_geo, h_geo, variant, viol, name_order)
     except Exception as e:  # noqa
         viol('C12.gen2/%s' % isoapi.exc_class(e), 'open + add_fp + write of the hybrid image raised %r' % e)
     nontriv = variant != 'plain' or (s_geo, h_geo) != (32, 64) or hy['part_entry'] != 1 or hy['part_offset'] != 0
     ctx.count(key=seed, nontrivial=nontriv, kind='variant:' + variant + ('+efi-entry' if extra_efi else ''), sample={'cfg': cfg, 'variant': variant, 'hybrid': hy, 'sizes': sizes, 'load': lsz, 'before_isohybrid': pre_step, 'extra_efi_entry': extra_efi})
 
 
-def second_generation(ctx, img2, hy, s_geo, h_geo, variant, viol):
+def second_generation(ctx, img2, hy, s_geo, h_geo, variant, viol, name_order=False):
     """MBR of an image that was opened, edited and written again: geometry fields for the NEW length, boot file address of
     the NEW layout, still a whole number of cylinders"""
     cyl = s_geo * h_geo * 512
@@ -375,6 +388,8 @@ def second_generation(ctx, img2, hy, s_geo, h_geo, variant, viol):
         def num(e, k):
             return int([x for x in e.split(':') if x.startswith(k)][0][len(k):])
         iso_len = int(rep.info.get('space', 0)) * 2048
+        if name_order and len(bents) >= 3:
+            bents = [bents[0], bents[2], bents[1]]      # recorded finding: the partitions follow the file-name order
         ph = decode_gpt_header(img2[512:512 + 92])
         if ph['sig'] != b'EFI PART' or not ph['hcrc_ok']:
             viol('C12.gen2/gpt-primary-header', 'second generation: primary GPT header signature/CRC invalid')
@@ -429,9 +444,61 @@ def probe_relocated_second_generation(ctx):
     second_generation(ctx, out2.getvalue(), {'part_entry': 1, 'part_offset': 0}, 32, 64, 'plain', viol)
 
 
+def probe_mac_partitions(ctx):
+    """a Mac hybrid whose first EFI section entry uses a boot file whose name sorts AFTER that of the second: which entry do
+    MBR partition 2 / 3 describe (recorded finding: the one whose file name sorts first), and do the Apple partition map
+    entries 2 and 3 delimit the two images at all (recorded finding: they stay empty)"""
+    import pycdlib
+    rp = {'kind': 'probe-mac-partitions'}
+    with isoapi.frozen_time():
+        iso = pycdlib.PyCdlib()
+        iso.new()
+        b = isoapi.isolinux_boot(2048, 0x11)
+        iso.add_fp(io.BytesIO(b), len(b), '/ISOLINUX.BIN;1')
+        iso.add_fp(io.BytesIO(b'z' * 5000), 5000, '/ZEFI.IMG;1')
+        iso.add_fp(io.BytesIO(b'a' * 2048), 2048, '/AMAC.IMG;1')
+        iso.add_eltorito('/ISOLINUX.BIN;1', boot_load_size=4)
+        iso.add_eltorito('/ZEFI.IMG;1', efi=True, boot_load_size=12)
+        iso.add_eltorito('/AMAC.IMG;1', efi=True, boot_load_size=4)
+        iso.add_isohybrid(mac=True)
+        out = io.BytesIO()
+        iso.write_fp(out)
+        first = iso.get_record(iso_path='/ZEFI.IMG;1').extent_location()
+        second = iso.get_record(iso_path='/AMAC.IMG;1').extent_location()
+        iso.close()
+    img = out.getvalue()
+    ctx.count(key=('probe-mac-partitions',), nontrivial=True, kind='probe')
+    p2 = struct.unpack_from('<LL', img, 446 + 16 + 8)
+    p3 = struct.unpack_from('<LL', img, 446 + 32 + 8)
+    if (p2, p3) == ((4 * second, 4), (4 * first, 12)):
+        ctx.violation('C12.efi/partitions-follow-name-order', 'MBR partition 2 = %s describes the SECOND EFI section entry (AMAC.IMG, sector %d), partition 3 = %s the '
+                      'first (ZEFI.IMG, sector %d): sections are handed to the hybrid structures in file-name order' % (p2, second, p3, first), rp)
+    elif (p2, p3) != ((4 * first, 12), (4 * second, 4)):
+        ctx.violation('C12.efi/mbr-partition', 'MBR partitions 2 / 3 = %s / %s describe neither order of the EFI sections at sectors %d (12) and %d (4)' % (p2, p3, first, second), rp)
+    # Apple partition map: entries of 2048 bytes from offset 2048; entry 2 / 3 = the two EFI images (either unit accepted)
+    want = sorted([(first, 12), (second, 4)])
+    got = []
+    for k in (1, 2):
+        off = 2048 * (k + 1)
+        sig, _r, _mc, start, count = struct.unpack_from('>HHLLL', img, off)
+        if sig != 0x504d:
+            ctx.violation('C12.apm/signature', 'Apple partition map entry %d has no PM signature' % (k + 1), rp)
+            return
+        got.append((start, count))
+    if all(g == (0, 0) for g in got):
+        ctx.violation('C12.apm/partitions-empty', 'Apple partition map entries 2 and 3 have start block 0 and block count 0: they do not delimit the '
+                      'EFI images at sectors %d and %d' % (first, second), rp)
+    else:
+        ok512 = sorted(got) == sorted([(4 * s, c) for s, c in want])
+        ok2048 = sorted(got) == sorted([(s, (c + 3) // 4) for s, c in want])
+        if not (ok512 or ok2048):
+            ctx.violation('C12.apm/partition-extent', 'Apple partition map entries 2 / 3 = %s do not delimit the EFI images %s' % (got, want), rp)
+
+
 def run(ctx):
     run_fn(ctx)
     probe_relocated_second_generation(ctx)
+    probe_mac_partitions(ctx)
     tmpdir = tempfile.mkdtemp(prefix='verif-c12-')
     try:
         for _ in range(60 if ctx.quick else 1500):
@@ -444,6 +511,9 @@ def run(ctx):
 
 
 def replay(ctx, obj):
+    if obj.get('replay', obj).get('kind') == 'probe-mac-partitions':
+        probe_mac_partitions(ctx)
+        return [v['signature'] for v in ctx.violations]
     if obj.get('replay', obj).get('kind') == 'probe-relocated-gen2':
         probe_relocated_second_generation(ctx)
         for v in ctx.violations:
